@@ -23,6 +23,9 @@ func (x *Exec) checkFrame(fr *frame, o outcome) {
 // frameObligations asserts (emit) the frame condition of st relative to the entry state; where = "" at returns,
 // "loopN-init" / "loopN-step" at loop heads.
 func (x *Exec) frameObligations(st *State, where string) {
+	if x.contract != nil && x.contract.Assumed {
+		return
+	}
 	x.frameDo(st, where, nil)
 }
 
